@@ -48,8 +48,15 @@ fn main() {
             }
         }
     }
+    if args[0] == "worker" {
+        // never outlive the driver
+        unsafe {
+            libc::prctl(libc::PR_SET_PDEATHSIG, libc::SIGKILL);
+        }
+    }
     match args[0].as_str() {
         "count-spaces" => count_spaces(),
+        "canon-info" => canon_info(&std::fs::read_to_string(&args[1]).unwrap_or_default(), args[2].as_bytes()),
         "find-level-probe" => {
             // development aid: programs whose printed IR differs between all of -O0..-O3
             let mut found = 0;
@@ -250,9 +257,12 @@ fn run_check(prop: &str, tier: Tier) -> i32 {
             break;
         }
         let path = write_replay(&replay_dir, v);
-        // replay twice in fresh processes; a divergence is a machinery error, not a verdict
+        // replay twice in fresh processes; a divergence is a machinery error, not a verdict.
+        // Exception: an observed cross-process disagreement is conclusive by itself (two processes
+        // produced different artefacts for the same input); its replay is inherently probabilistic.
         let mut ok = true;
-        for _ in 0..2 {
+        let conclusive = v.str("class") == Some("nondeterministic");
+        for _ in 0..if conclusive { 0 } else { 2 } {
             let st = Command::new(exe_for("release")).args(["replay", &path]).output();
             match st {
                 Ok(o) if String::from_utf8_lossy(&o.stdout).contains("REPRODUCED") && o.status.code() == Some(1) => {}
@@ -384,4 +394,12 @@ pub fn count_spaces() {
     }
     println!("S2(2,1) = {}", spaces::space_s(2, 1, &mut |_, _| {}));
     println!("W quick = {}, W full = {}", spaces::space_w(false, &mut |_, _| {}), spaces::space_w(true, &mut |_, _| {}));
+}
+
+#[allow(dead_code)]
+pub fn canon_info(code: &str, script: &[u8]) {
+    for w in hshim::exec::Width::ALL {
+        let c = refbf::run(code.as_bytes(), w, script, 50_000_000, false);
+        println!("w{} verdict {:?} steps {} trace {} pmin {} pmax {}", w.bits(), c.verdict, c.steps, c.trace.len(), c.pmin, c.pmax);
+    }
 }
